@@ -72,13 +72,13 @@ func ruleCtorShape(c *Ctx, dv *dev) map[*ssa.Function]*ctorShape {
 		c.Fn(shortFn(fn))
 		key := "midi." + fn.Name() + "/shape"
 		pos := c.P.Pos(fn.Pos())
-		paths, err := Enumerate(fn, SymConfig{Prog: c.P, MaxDepth: 1, Collapse: true})
+		paths, err := Enumerate(fn, SymConfig{Prog: c.P, MaxDepth: 2, Collapse: true}) // (a constructor may be written in terms of another one)
 		if err != nil || len(paths) != 1 || len(paths[0].Ret) != 1 {
 			c.Undec("R5.1", key, pos, fmt.Sprintf("constructor is not a single straight-line path (paths=%d err=%v)", len(paths), err))
 			continue
 		}
 		c.Paths++
-		ev := decodeEvent(paths[0].Ret[0])
+		ev := decodeEvent(builtLiteral(paths[0], paths[0].Ret[0]))
 		sh := &ctorShape{fn: fn, kindParam: -1, chanParam: -1, dataParam: [2]int{-1, -1}}
 		if ev.Len != 3 || !ev.ok && ev.Status == nil {
 			c.Bad("R5.1", key, pos, "constructor does not return a 3-byte literal: "+paths[0].Ret[0].String())
@@ -231,6 +231,8 @@ func ctorCalls(v ssa.Value, dv *dev, seen map[ssa.Value]bool) ([]*ssa.Call, bool
 		return out, true
 	case *ssa.ChangeType:
 		return ctorCalls(x.X, dv, seen)
+	case *ssa.Index:
+		return sliceElemCtorCalls(x.X, dv, seen)
 	case *ssa.UnOp:
 		// an element of a list of messages that a helper of the package built from constructor results
 		if ia, ok := x.X.(*ssa.IndexAddr); ok && x.Op == token.MUL {
@@ -295,6 +297,16 @@ func fromReceive(p *Program, v ssa.Value, seen map[ssa.Value]bool) bool {
 	seen[v] = true
 	switch x := v.(type) {
 	case *ssa.UnOp:
+		if x.Op == token.MUL {
+			// a load of a captured variable
+			switch y := x.X.(type) {
+			case *ssa.FreeVar:
+				return fromReceive(p, y, seen)
+			case *ssa.Alloc:
+				return fromReceive(p, y, seen)
+			}
+			return false
+		}
 		return x.Op == token.ARROW
 	case *ssa.Extract:
 		switch t := x.Tuple.(type) {
@@ -319,6 +331,43 @@ func fromReceive(p *Program, v ssa.Value, seen map[ssa.Value]bool) bool {
 		return fromReceive(p, x.X, seen)
 	case *ssa.Convert:
 		return fromReceive(p, x.X, seen)
+	case *ssa.FreeVar:
+		// a closure that forwards a captured value: what every place that creates the closure binds
+		fn := x.Parent()
+		idx := -1
+		for i, fv := range fn.FreeVars {
+			if fv == x {
+				idx = i
+			}
+		}
+		n := 0
+		for _, host := range p.Funcs {
+			for _, b := range host.Blocks {
+				for _, in := range b.Instrs {
+					mc, ok := in.(*ssa.MakeClosure)
+					if !ok || mc.Fn != ssa.Value(fn) || idx < 0 || idx >= len(mc.Bindings) {
+						continue
+					}
+					n++
+					if !fromReceive(p, mc.Bindings[idx], seen) {
+						return false
+					}
+				}
+			}
+		}
+		return n > 0
+	case *ssa.Alloc:
+		// the cell of a captured variable: what is stored into it
+		n := 0
+		for _, r := range *x.Referrers() {
+			if st, ok := r.(*ssa.Store); ok && st.Addr == ssa.Value(x) {
+				n++
+				if !fromReceive(p, st.Val, seen) {
+					return false
+				}
+			}
+		}
+		return n > 0
 	case *ssa.Parameter:
 		// a helper that forwards its argument: every static call site must pass a received value
 		sites, ok := staticCallSites(p, x.Parent())
@@ -771,6 +820,46 @@ func sliceElemCtorCalls(s ssa.Value, dv *dev, seen map[ssa.Value]bool) ([]*ssa.C
 	switch x := s.(type) {
 	case *ssa.Const:
 		return nil, x.Value == nil // the nil slice has no elements
+	case *ssa.Alloc:
+		// a local array the messages are prepared in: every element store is a constructor result
+		var out []*ssa.Call
+		n := 0
+		for _, r := range *x.Referrers() {
+			ia, ok := r.(*ssa.IndexAddr)
+			if !ok {
+				if _, isLoad := r.(*ssa.UnOp); isLoad {
+					continue
+				}
+				if _, isDbg := r.(*ssa.DebugRef); isDbg {
+					continue
+				}
+				return nil, false
+			}
+			for _, rr := range *ia.Referrers() {
+				switch y := rr.(type) {
+				case *ssa.Store:
+					if y.Addr != ssa.Value(ia) {
+						return nil, false
+					}
+					cs, ok := ctorCalls(y.Val, dv, seen)
+					if !ok {
+						return nil, false
+					}
+					out = append(out, cs...)
+					n++
+				case *ssa.UnOp:
+				default:
+					return nil, false
+				}
+			}
+		}
+		return out, n > 0
+	case *ssa.UnOp:
+		// the array copied for a range loop
+		if a, ok := x.X.(*ssa.Alloc); ok && x.Op == token.MUL {
+			return sliceElemCtorCalls(a, dv, seen)
+		}
+		return nil, false
 	case *ssa.Parameter:
 		// the (variadic) list parameter of a sending helper: every static call site
 		sites, all := staticCallSites(dv.p, x.Parent())
